@@ -64,6 +64,9 @@ func (b *Body) call(v ssa.Value, c *ssa.CallCommon, blk *ssa.BasicBlock, reach *
 	con := ft.e.contracts.Fns[key]
 	// `calls` clauses of the function under verification
 	b.callSiteClauses(key, c, sig, args, reach, st, pos)
+	if con == nil && b.nativeCall(v, key, c, args, blk, reach, st) {
+		return
+	}
 	switch {
 	case fn != nil && fn.Blocks != nil && (clos != nil && fn.Parent() != nil || con != nil && con.Inline) && b.depth < 4:
 		b.inline(v, fn, clos, args, blk, reach, st, pos)
@@ -380,6 +383,7 @@ func (b *Body) inline(v ssa.Value, fn *ssa.Function, clos *Closure, args []*Val,
 	ft := b.ft
 	n := ft.count("inline")
 	sub := ft.newBody(fn, fmt.Sprintf("%si%d.", b.prefix, n), b.loopsOf(blk), b.depth+1)
+	sub.parent = b
 	for i, p := range fn.Params {
 		if i < len(args) {
 			sub.vals[p] = args[i]
